@@ -91,6 +91,7 @@ def ropOfJson (j : Json) : Except String ROp := do
   let kind ← (← j.getObjVal? "op").getStr?
   match kind with
   | "take" => pure (.take (← (← j.getObjVal? "f").getStr?))
+  | "assignRef" => do pure (.assignRef (← (← j.getObjVal? "f").getStr?) (← (← j.getObjVal? "i").getNat?))
   | "callRef" => do pure (.callRef (← (← j.getObjVal? "i").getNat?) (← callOfJson j))
   | _ => do pure (.plain (← opOfJson j))
 
@@ -112,6 +113,9 @@ def run (j : Json) : Except String Json := do
   let bound := match optField j "nestedBound" with
     | some (.bool b) => b
     | _ => Generated.nestedBound
+  let dh := match optField j "delitemHook" with
+    | some (.bool b) => b
+    | _ => Generated.delitemHook
   match cls with
   | .struct c fields _ =>
     let start := construct O cls kw
@@ -120,7 +124,7 @@ def run (j : Json) : Except String Json := do
         let rec go (st : MState) : List ROp → List Json
           | [] => []
           | op :: rest =>
-            let r := stepR bound Generated.wrappers O c fields st op
+            let r := stepR bound dh Generated.wrappers O c fields st op
             Json.mkObj [("out", outcomeJson r.2), ("state", valToJson (.inst c.name r.1.attrs)),
                         ("refs", Json.arr (r.1.refs.map (fun w => valToJson w.payload)).toArray)] :: go r.1 rest
         go { attrs := attrs } ops
